@@ -338,9 +338,22 @@ def _refusals(w, rng, K, viol, cname):
         ("wrong-dtype-array-u8-for-i8", lambda: K["paddr_Int8"](p=np.arange(4, dtype=np.uint8))),
         ("wrong-dtype-xobject-array", lambda: K["first_Float64"](p=xo.Int64[:]([1, 2, 3]))),
         ("scalar-for-pointer", lambda: K["first_Float64"](p=3.0)),
+        # a misspelled name is a missing AND an extra argument at once (the count is right)
+        ("misnamed-float-scalar", lambda: K["id_Float64"](y=1.0)),
+        ("misnamed-float32-scalar", lambda: K["id_Float32"](xx=1.0)),
+        ("misnamed-one-of-two", lambda: K["store_Float64"](p=good, w=1.0)),
+        # element types outside the ten numeric ones must not be taken for an integer of the same width
+        ("wrong-dtype-array-complex64-for-i64", lambda: K["paddr_Int64"](p=np.zeros(4, dtype=np.complex64))),
+        ("wrong-dtype-array-bool-for-i8", lambda: K["paddr_Int8"](p=np.zeros(4, dtype=bool))),
+        ("wrong-dtype-array-datetime64-for-i64", lambda: K["paddr_Int64"](p=np.zeros(4, dtype="datetime64[s]"))),
+        ("wrong-dtype-array-timedelta64-for-i64", lambda: K["paddr_Int64"](p=np.zeros(4, dtype="timedelta64[s]"))),
+        ("wrong-dtype-array-U1-for-i32", lambda: K["paddr_Int32"](p=np.zeros(4, dtype="U1"))),
+        ("wrong-dtype-array-float16-for-i16", lambda: K["paddr_Int16"](p=np.zeros(4, dtype=np.float16))),
+        ("wrong-dtype-array-record-for-i64", lambda: K["paddr_Int64"](p=np.zeros(4, dtype=[("a", "i4"), ("b", "i4")]))),
+        ("wrong-dtype-array-complex128-for-f64", lambda: K["first_Float64"](p=np.zeros(4, dtype=np.complex128))),
     ]
     rng.shuffle(cases)
-    for name, fn in cases[:6]:
+    for name, fn in cases[:10]:
         try:
             fn()
             raised = False
@@ -353,4 +366,4 @@ def _refusals(w, rng, K, viol, cname):
         if n1 != n0:
             viol(f"c-function-ran-despite-bad-arguments|{name}", f"call counter {n0} -> {n1}")
             n0 = n1
-    w.case(["refusals", cname, [c[0] for c in cases[:6]]], None)
+    w.case(["refusals", cname, [c[0] for c in cases[:10]]], None)
